@@ -50,10 +50,11 @@ func NewDecimal(i int64, exponent int) (Decimal, error) {
 		intPart = i / int64(math.Pow10(-exponent))
 		fracPart = i % int64(math.Pow10(-exponent)) * int64(math.Pow10(4+exponent))
 	} else {
-		intPart = i * int64(math.Pow10(exponent))
-		if i > 0 && intPart < i {
+		scale := int64(math.Pow10(exponent))
+		intPart = i * scale
+		if i > 0 && (i > math.MaxInt64/scale || intPart < i) {
 			return Decimal{}, fmt.Errorf("%w: value %ve%v would overflow", errDecimal, i, exponent)
-		} else if i < 0 && intPart > i {
+		} else if i < 0 && (i < math.MinInt64/scale || intPart > i) {
 			return Decimal{}, fmt.Errorf("%w: value %ve%v would underflow", errDecimal, i, exponent)
 		}
 	}
